@@ -435,14 +435,13 @@ class Program:
         out = []
         for c in self.subclasses(base):
             abstract = False
-            names = set()
-            for k in self.mro(c):
-                names.update(k.methods)
-            for n in names:
-                fi = self.resolve_method(c, n)
-                if fi is not None and fi.is_abstract:
-                    abstract = True
-                    break
+            resolved: dict[str, bool] = {}
+            for k in self.mro(c):           # nearest definition wins
+                for n, fi in k.methods.items():
+                    resolved.setdefault(n, fi.is_abstract)
+                for n in k.attrs:
+                    resolved.setdefault(n, False)
+            abstract = any(resolved.values())
             if not abstract:
                 out.append(c)
         return sorted(out, key=lambda c: c.qualname)
